@@ -552,6 +552,15 @@ func (l Large) text() string {
 		return lisp.String(strings.Repeat("a", l.Inner) + strings.Repeat(unit+"b", l.KB*1024/(len(unit)+1))).String()
 	case "one-comment":
 		return "(list 1)\n; " + strings.Repeat("(x "+unit+") ", l.KB*1024/(len(unit)+5)) + "\n(list 2)"
+	case "one-hashbang":
+		return "#!" + strings.Repeat("(x "+unit+") ", l.KB*1024/(len(unit)+5)) + "\n(list 1)\n(list 2)"
+	case "inner-comment":
+		return "(list 1 ;" + strings.Repeat("x"+unit, l.KB*1024/(len(unit)+1)) + " 3 4\n 2)"
+	case "one-symbol":
+		return "(list 1 " + l.longSymbol() + " 2)"
+	case "spaces", "newlines", "mixed-space":
+		ws := map[string]string{"spaces": " ", "newlines": "\n", "mixed-space": " \t\n"}[l.Shape]
+		return "(list 1" + strings.Repeat(ws, l.KB*1024/len(ws)+1) + "2)" + strings.Repeat(ws, l.KB*1024/len(ws)+1) + "(list 3)"
 	}
 	elem := lisp.String(strings.Repeat("a", l.Inner) + unit).String()
 	n := l.KB*1024/(len(elem)+1) + 1
@@ -567,6 +576,31 @@ func (l Large) text() string {
 	return b.String()
 }
 
+// longSymbol is one readable symbol of about KB kilobytes (letters only, the
+// unit's letters included when it has any).
+func (l Large) longSymbol() string {
+	unit := "b"
+	if u := largeUnits[l.Unit%len(largeUnits)]; u == "é" || u == "aé" || u == "ß" || u == "日本" {
+		unit = u
+	}
+	return strings.Repeat("a", l.Inner+1) + strings.Repeat(unit, l.KB*1024/len(unit))
+}
+
+// largeExpect is the tree a single-huge-token source must read to when the
+// readers accept it: the text with the huge comment / white space reduced to
+// nothing, or with the symbol read back whole.
+func (l Large) largeExpect() (string, bool) {
+	switch l.Shape {
+	case "one-comment", "one-hashbang":
+		return "(list 1)\n(list 2)", true
+	case "inner-comment":
+		return "(list 1\n 2)", true
+	case "spaces", "newlines", "mixed-space":
+		return "(list 1 2) (list 3)", true
+	}
+	return "", false
+}
+
 func checkLarge(l Large, c *vcommon.Ctx) *vcommon.Failure {
 	if l.KB < 1 || l.KB > 2000 || l.Pad < 0 || l.Inner < 0 {
 		return nil
@@ -577,7 +611,42 @@ func checkLarge(l Large, c *vcommon.Ctx) *vcommon.Failure {
 		// (there is a maximum token size), they decide it alike
 		c.Class("shape/" + l.Shape)
 		c.NonTrivial(fmt.Sprintf("%s/%d/%d/%d/%d", l.Shape, l.Unit, l.KB, l.Pad, l.Inner))
-		return checkModes(Src{B: []byte(strings.Repeat(" ", l.Pad) + body)}, nil)
+		src := []byte(strings.Repeat(" ", l.Pad) + body)
+		if f := checkModes(Src{B: src}, nil); f != nil {
+			return f
+		}
+		// ... and a token larger than the window is refused as a whole or read
+		// as a whole: it is never cut in two with the tail read as code, and
+		// white space of any length is still only a separator.
+		strict, _, _, e1, _, _ := readModes(src)
+		if e1 != nil {
+			c.Class("huge-token/rejected")
+			if l.Shape == "spaces" || l.Shape == "newlines" || l.Shape == "mixed-space" {
+				return vcommon.Failf("large/whitespace-run-rejected", "%d KB of white space (%s) between complete expressions make the readers reject a text they accept with one space: %v", l.KB, l.Shape, e1)
+			}
+			return nil
+		}
+		c.Class("huge-token/accepted")
+		if want, ok := l.largeExpect(); ok {
+			exp, _, _, e0, _, _ := readModes([]byte(want))
+			if e0 != nil {
+				return vcommon.Failf("large/harness", "reference text rejected: %v", e0)
+			}
+			if exp.s != strict.s {
+				return vcommon.Failf("large/token-cut/"+l.Shape, "a %s of %d KB changes the tree: the readers accept the text but part of it is read as code (expected the tree of %q, got %d nodes instead of %d)", l.Shape, l.KB, want, strict.n, exp.n)
+			}
+		}
+		if l.Shape == "one-symbol" {
+			exprs, err := strictRead(string(src))
+			if err != nil || len(exprs) != 1 || len(exprs[0].Cells) != 4 || exprs[0].Cells[2].Type != lisp.LSymbol || exprs[0].Cells[2].Str != l.longSymbol() {
+				n := -1
+				if err == nil && len(exprs) == 1 {
+					n = len(exprs[0].Cells)
+				}
+				return vcommon.Failf("large/token-cut/one-symbol", "a symbol of %d KB inside (list 1 <symbol> 2) is accepted but not read back as one symbol: the list has %d elements", l.KB, n)
+			}
+		}
+		return nil
 	}
 	base, _, _, e0, _, _ := readModes([]byte(body))
 	if e0 != nil {
@@ -608,7 +677,7 @@ func genLarge() *rapid.Generator[Large] {
 			KB:    rapid.SampledFrom([]int{1, 60, 127, 129, 140, 200, 260, 300, 390, 520}).Draw(t, "kb"),
 			Pad:   rapid.IntRange(0, 9).Draw(t, "pad"),
 			Inner: rapid.IntRange(0, 6).Draw(t, "inner"),
-			Shape: rapid.SampledFrom([]string{"", "", "", "one-string", "one-comment"}).Draw(t, "shape"),
+			Shape: rapid.SampledFrom([]string{"", "", "", "one-string", "one-comment", "one-hashbang", "inner-comment", "one-symbol", "spaces", "newlines", "mixed-space"}).Draw(t, "shape"),
 		}
 	})
 }
